@@ -13,7 +13,7 @@ CLEAR_CACHES_EVERY = 500
 RULE = (
     "Cases = (values array of rank 1-4 with axis sizes 1-4, choice-axis subset (possibly none), optional sorted "
     "non-empty segmentation of the leading axis, scale s log-uniform in [1e-6, 1e6], value magnitude 1e-3..1e6, "
-    "spread 0..1e6, shift c). _calculate_emax_extreme_value_shocks / _segment_logsumexp are compared with "
+    "spread 0..1e6 (constant arrays and arrays with 2-3 distinct levels give exact ties at the maximum; 1 case in 8 has integer dtype), shift c). _calculate_emax_extreme_value_shocks / _segment_logsumexp are compared with "
     "scipy.special.logsumexp in float64 on the same grouping (1e-9 relative to max(|max|, s, 1)); the result must be "
     "finite, lie in [max, max + s*log(n)] (+1e-9 slack), shift by c when c is added to all values, be within "
     "s*log(n) of the max, and the same data arranged as an extra array axis and as equal-length segments of the "
